@@ -1,11 +1,12 @@
 SPEC = {
-    'module': 'EV.Props.C13',
+    'module': 'EV.Props.C13canon',
     'theorems': ['EV.TxCodec.C13_read_serialize', 'EV.TxCodec.C13_hash_range', 'EV.TxCodec.C13_serialize_read',
                  'EV.TxCodec.C13_truncated_fails', 'EV.TxCodec.C13_iterTxs_correct_sharp',
                  'EV.TxCodec.C13_iterTxs_correct', 'EV.TxCodec.C13_iterTxsReversed_correct',
                  'EV.TxCodec.C13_chunk_size_ok', 'EV.TxCodec.C13_fuel',
                  'EV.TxCodec.C13_noncanonical_example', 'EV.TxCodec.C13_small_chunk_example',
-                 'EV.TxCodec.C13_counterexample_F3', 'EV.TxCodec.C13_counterexample_F3_range'],
+                 'EV.TxCodec.C13_counterexample_F3', 'EV.TxCodec.C13_counterexample_F3_range',
+                 'EV.TxCodec.C13_serialize_canon', 'EV.TxCodec.C13_serialize_read_serialize'],
     'suites': ['txcodec'],
     'assumptions': [
         'well-formed transaction (read_serialize, streaming): every integer field in range of its struct format '
@@ -21,7 +22,7 @@ SPEC = {
         'SHA-256 is not modelled: the model returns the byte string that is hashed and the harness checks the real hash '
         'against hashlib over exactly those bytes',
         'the model is tied to lib/tx.py, lib/util.py and OnDiskBlock by differential execution, not by proof',
-        'no lemma states canonTx (serialize tx) (that serialisation produces canonical varints), so C13_serialize_read is not shown to apply to every output of serialize; the log_block branch of OnDiskBlock.iter_txs (outside the try) is not modelled',
+        'canonTx (serialize tx) is proved (C13_serialize_canon, C13_serialize_read_serialize in EV/Props/C13canon.lean): the hypothesis of C13_serialize_read is discharged for every output of the serialiser; the log_block branch of OnDiskBlock.iter_txs (outside the try) is not modelled',
     ],
     'design_ref': 'DESIGN.md §6 C13',
     'level_text': 'proof: read-after-serialize, serialize-after-read (canonical varints), failure on every truncation, '
